@@ -334,11 +334,11 @@ fn iter_skip_any() {
 }
 
 // @verif family=SEQ quick=C12 thorough=C01,C02 timeout=900
-// @bounds kind=ConIterOfIter<usize,Probe> len<=3, all size hints; prefix<=3 next(); one of for_each/enumerate_for_each/fold with n in [1,len+2]; end drop
+// @bounds kind=ConIterOfIter<usize,Probe> len<=3, all size hints; prefix<=3 next(); one of for_each/enumerate_for_each/fold with chunk size 1 or 2; end drop
 #[kani::proof]
 #[kani::unwind(7)]
 fn iter_loops() {
-    go_iter(3, 3, S_LOOPS, E_DROP, wit_loops);
+    go_iter_n(3, 3, S_LOOPS, E_DROP, wit_loops, 2);
 }
 
 // @verif family=SEQ quick=C08 thorough=C03,C10 timeout=900
